@@ -1,14 +1,21 @@
 // C14 harness: the Monte-Carlo integrators of libphysica under the seed hook (case grammar: checks/C14.py)
 //   stream  <seed> <k>                                    -> k draws of Sample_Uniform from std::mt19937(seed)
 //   mc      <call>                                        -> result neval digest min_0 max_0 ... (evaluation points)
-//   hist    <n> <call>*n <call>                           -> observed result before and after the n history calls
+//   hist    <n> <call>*n <call>                           -> observed result in a fresh process, in this process before the n history
+//                                                            calls, after them; number of history calls that were aborted
 //   front2d <method> <seed> <p> x1 x2 y1 y2 <fexpr>       -> Integrate_2D(...) neval digest minx maxx miny maxy
 //   front3d <method> <seed> <p> x1 x2 y1 y2 z1 z2 <fexpr> -> Integrate_3D(...) ...
-//   call := <method> <seed> <ncall> <dim> <region: 2*dim numbers {lower..., upper...}> <fexpr in v0..v9 / x y z>
+//   call := <method>[!<n>] <seed> <ncall> <dim> <region: 2*dim numbers {lower..., upper...}> <fexpr in v0..v9 / x y z>
+//           with !<n> the integrand throws a C++ exception from its n-th evaluation (n >= 1; the point of that evaluation is still
+//           recorded); the exception leaves through Integrate_MC and is caught here: the integration is ABORTED.
+//           mc on such a call prints  ABORTED neval digest min_0 max_0 ...  (or the ordinary line when fewer than n evaluations were made)
+// Every case runs in a process of its own with the statics of a fresh process (see "fresh processes" below); the first number of a hist line
+// comes from yet another one, forked before the case's process has called the library.
 #include "common.hpp"
 #include "libphysica/Integration.hpp"
 #include "libphysica/Statistics.hpp"
 #include <random>
+#include <stdexcept>
 namespace libphysica
 {
 namespace verif
@@ -65,19 +72,34 @@ struct Call
 	std::string method;
 	unsigned int seed;
 	int ncall;
+	long throw_at = 0;	 // 0: never
 	std::vector<double> region;
 	std::shared_ptr<vh::FExpr> e;
+	std::string text;	// the tokens of the call, as read
+};
+struct IntegrandGaveUp : public std::runtime_error
+{
+	IntegrandGaveUp() : std::runtime_error("integrand gave up") {}
 };
 static Call read_call(vh::Reader& r)
 {
 	Call c;
-	c.method = r.word();
-	c.seed	 = (unsigned int) r.integer();
+	size_t first = r.i;
+	c.method	 = r.word();
+	size_t bang	 = c.method.find('!');
+	if(bang != std::string::npos)
+	{
+		c.throw_at = std::strtol(c.method.c_str() + bang + 1, nullptr, 10);
+		c.method   = c.method.substr(0, bang);
+	}
+	c.seed = (unsigned int) r.integer();
 	c.ncall	 = (int) r.integer();
 	long dim = r.integer();
 	for(long k = 0; k < 2 * dim; k++)
 		c.region.push_back(r.num());
 	c.e = vh::parse_fexpr(r);
+	for(size_t k = first; k < r.i; k++)
+		c.text += (k > first ? " " : "") + r.t[k];
 	return c;
 }
 static void set_seed(unsigned int seed)
@@ -85,18 +107,205 @@ static void set_seed(unsigned int seed)
 	verif::mc_seed_set = true;
 	verif::mc_seed	   = seed;
 }
-static double run_call(Call& c, Rec* rec)
+// runs the call; *aborted says whether the integrand's exception came out of Integrate_MC (the value returned is then meaningless)
+static double run_call(Call& c, Rec* rec, bool* aborted = nullptr)
 {
+	long count													= 0;
 	std::function<double(std::vector<double>&, const double)> f = [&](std::vector<double>& args, const double) {
 		double v[10] = {0, 0, 0, 0, 0, 0, 0, 0, 0, 0};
 		for(size_t k = 0; k < args.size() && k < 10; k++)
 			v[k] = args[k];
 		if(rec)
 			rec->point(v, (int) (c.region.size() / 2));	  // Vegas passes its static work vector of size MXDIM = 10; only the first ndim entries are the point
+		if(++count == c.throw_at)
+			throw IntegrandGaveUp();
 		return vh::eval_fexpr(*c.e, v);
 	};
 	set_seed(c.seed);
-	return Integrate_MC(f, c.region, c.ncall, c.method);
+	if(aborted)
+		*aborted = false;
+	try
+	{
+		return Integrate_MC(f, c.region, c.ncall, c.method);
+	}
+	catch(const IntegrandGaveUp&)
+	{
+		if(aborted)
+			*aborted = true;
+		return std::nan("");
+	}
+}
+
+// ---------- fresh processes ----------
+// Every case is answered by a process of its own whose function-local statics are those of a fresh process: before the first case is read
+// main() forks a server that never calls the library; the runner's worker passes each case line to it, the server forks a child for the
+// case, the child runs the handler and sends the output line back.  A case is therefore self-contained (a replay of the case alone sees what
+// the run saw), and the histories are exactly the ones spelled out in the hist cases.  When the child ends without an output line (the
+// library terminated the process, a crash, a sanitizer report, the time limit) the worker ends the same way, so that the runner records it.
+static int g_req = -1, g_rsp = -1;	 // worker side: requests out, answers in
+static long g_id = 0;
+static std::string g_diag;	// the runner's file of diagnostics (what the library prints)
+
+static std::string format_value(double v, bool aborted)
+{
+	if(aborted)
+		return "ABORTED";
+	vh::Out o;
+	o.f(v);
+	return o.s.str();
+}
+// the value of the call in a process forked from this one (to be used before this process calls the library)
+static std::string in_fresh_process(Call& c)
+{
+	int pfd[2];
+	if(pipe(pfd) != 0)
+		return "NOFORK";
+	fflush(stdout);
+	fflush(stderr);
+	pid_t pid = fork();
+	if(pid < 0)
+		return "NOFORK";
+	if(pid == 0)
+	{
+		close(pfd[0]);
+		bool ab		  = false;
+		double v	  = run_call(c, nullptr, &ab);
+		std::string t = format_value(v, ab);
+		if(write(pfd[1], t.c_str(), t.size()) != (ssize_t) t.size()) {}
+		_exit(0);
+	}
+	close(pfd[1]);
+	std::string ans;
+	char b[256];
+	ssize_t k;
+	while((k = read(pfd[0], b, sizeof b)) > 0)
+		ans.append(b, k);
+	close(pfd[0]);
+	int st = 0;
+	waitpid(pid, &st, 0);
+	return ans.empty() ? "DIED" : ans;
+}
+
+static void handler(vh::Reader& r, vh::Out& o);
+static void serve(int req, int rsp)
+{
+	FILE* in  = fdopen(req, "r");
+	char* buf = nullptr;
+	size_t cap = 0;
+	while(getline(&buf, &cap, in) > 0)
+	{
+		char* p = buf;
+		long id = strtol(p, &p, 10);
+		int pfd[2];
+		if(pipe(pfd) != 0)
+			_exit(2);
+		pid_t pid = fork();
+		if(pid == 0)
+		{
+			close(pfd[0]);
+			int dfd = open(g_diag.c_str(), O_WRONLY | O_APPEND | O_CREAT, 0644);
+			if(dfd >= 0)
+			{
+				dup2(dfd, 1);
+				dup2(dfd, 2);
+			}
+			alarm(115);
+			vh::Reader r(p);
+			vh::Out o;
+			if(r.more())
+				handler(r, o);
+			std::string t = o.s.str() + "\n";
+			size_t off	  = 0;
+			while(off < t.size())
+			{
+				ssize_t k = write(pfd[1], t.c_str() + off, t.size() - off);
+				if(k <= 0)
+					break;
+				off += k;
+			}
+			_exit(0);
+		}
+		close(pfd[1]);
+		std::string ans;
+		char b[4096];
+		ssize_t k;
+		while((k = read(pfd[0], b, sizeof b)) > 0)
+			ans.append(b, k);
+		close(pfd[0]);
+		int st = 0;
+		waitpid(pid, &st, 0);
+		std::string line = std::to_string(id);
+		if(!ans.empty() && ans.back() == '\n')
+			line += " OK " + ans;
+		else if(WIFSIGNALED(st))
+			line += " SIGNAL " + std::to_string(WTERMSIG(st)) + "\n";
+		else
+			line += " EXIT " + std::to_string(WIFEXITED(st) ? WEXITSTATUS(st) : 1) + "\n";
+		size_t off = 0;
+		while(off < line.size())
+		{
+			ssize_t w = write(rsp, line.c_str() + off, line.size() - off);
+			if(w <= 0)
+				_exit(2);
+			off += w;
+		}
+	}
+	_exit(0);
+}
+// the worker's side: pass the case on, copy the answer
+static void relay(vh::Reader& r, vh::Out& o)
+{
+	if(g_req < 0)
+	{
+		o.w("HARNESSERR no_server");
+		return;
+	}
+	long id			= ++g_id + 1000000L * (long) getpid();
+	std::string msg = std::to_string(id);
+	for(size_t k = 0; k < r.t.size(); k++)
+		msg += " " + r.t[k];
+	msg += "\n";
+	size_t off = 0;
+	while(off < msg.size())
+	{
+		ssize_t w = write(g_req, msg.c_str() + off, msg.size() - off);
+		if(w <= 0)
+		{
+			o.w("HARNESSERR no_server");
+			return;
+		}
+		off += w;
+	}
+	for(;;)
+	{
+		std::string line;
+		char ch;
+		ssize_t k;
+		while((k = read(g_rsp, &ch, 1)) == 1 && ch != '\n')
+			line += ch;
+		if(k != 1)
+		{
+			o.w("HARNESSERR no_server");
+			return;
+		}
+		// answers to requests of a worker that has ended meanwhile are skipped
+		char* q = nullptr;
+		if(std::strtol(line.c_str(), &q, 10) != id)
+			continue;
+		std::string rest(q + (*q == ' ' ? 1 : 0));
+		if(rest.compare(0, 3, "OK ") == 0 || rest == "OK")
+			o.w(rest.size() > 3 ? rest.substr(3) : "");
+		else if(rest.compare(0, 7, "SIGNAL ") == 0)
+		{
+			int sig = std::atoi(rest.c_str() + 7);
+			signal(sig, SIG_DFL);
+			raise(sig);
+			_exit(1);
+		}
+		else
+			_exit(rest.compare(0, 5, "EXIT ") == 0 ? std::atoi(rest.c_str() + 5) : 1);
+		return;
+	}
 }
 
 static void handler(vh::Reader& r, vh::Out& o)
@@ -116,7 +325,12 @@ static void handler(vh::Reader& r, vh::Out& o)
 	{
 		Call c = read_call(r);
 		Rec rec;
-		o.f(run_call(c, &rec));
+		bool ab	 = false;
+		double v = run_call(c, &rec, &ab);
+		if(ab)
+			o.w("ABORTED");
+		else
+			o.f(v);
 		rec.put(o, (int) (c.region.size() / 2));
 	}
 	else if(op == "hist")
@@ -126,12 +340,19 @@ static void handler(vh::Reader& r, vh::Out& o)
 		for(long k = 0; k < nh; k++)
 			hs.push_back(read_call(r));
 		Call c	 = read_call(r);
-		double a = run_call(c, nullptr);
+		o.w(in_fresh_process(c));	// first: this process has not called the library yet
+		double a	 = run_call(c, nullptr);
+		long naborted = 0;
 		for(auto& h : hs)
-			run_call(h, nullptr);
+		{
+			bool ab = false;
+			run_call(h, nullptr, &ab);
+			naborted += ab ? 1 : 0;
+		}
 		double b = run_call(c, nullptr);
 		o.f(a);
 		o.f(b);
+		o.i(naborted);
 	}
 	else if(op == "front2d" || op == "front3d")
 	{
@@ -168,4 +389,30 @@ static void handler(vh::Reader& r, vh::Out& o)
 	else
 		o.w("HARNESSERR unknown_op");
 }
-int main(int argc, char** argv) { return vh::run(argc, argv, handler, 120); }
+int main(int argc, char** argv)
+{
+	int req[2], rsp[2];
+	pid_t srv = -1;
+	if(argc >= 3)
+		g_diag = std::string(argv[2]) + ".diag";
+	if(pipe(req) == 0 && pipe(rsp) == 0)
+	{
+		srv = fork();
+		if(srv == 0)
+		{
+			close(req[1]);
+			close(rsp[0]);
+			serve(req[0], rsp[1]);
+		}
+		close(req[0]);
+		close(rsp[1]);
+		g_req = req[1];
+		g_rsp = rsp[0];
+	}
+	int rc = vh::run(argc, argv, relay, 120);
+	if(g_req >= 0)
+		close(g_req);
+	if(srv > 0)
+		waitpid(srv, nullptr, 0);
+	return rc;
+}
